@@ -19,7 +19,8 @@ RULE_TEXT = ("C01-T: for every witness interface (hand-designed families + VERIF
              "parsers hand each whole mnemonic to child and leave with UndefinedHeader on None; execute picks the "
              "query/command slot by the query flag, refuses an empty slot with UndefinedHeader and otherwise calls "
              "execute_command exactly once; C01-Q: the call parse returns has query = `?` consumed behind the header and "
-             "node = the node the header parser returned.")
+             "node = the node the header parser returned."
+             " C01-PR: the contracts of the parser combinators the skeleton builds on are read from their bodies - satisfy (accept first byte iff pred / soft error / Incomplete on empty), take_while (never fails; longest prefix, position() form or counting-loop form), optional (never fails; Some(value) or input untouched), tag(b) = satisfy(== b).")
 
 CHILD = "microscpi::tree::Node::child"
 EXECUTE = "microscpi::interface::Interface::execute"
